@@ -15,3 +15,4 @@ import IrisVerif.Props.C16
 import IrisVerif.Props.C19
 import IrisVerif.Props.C20
 import IrisVerif.Props.C01
+import IrisVerif.Props.C06
